@@ -65,6 +65,10 @@ def run(ctx):
   # with the lag in force; the shutdown hook sets the lag to 0 and the final passes must hand out everything
   r_ops = [('store', 'm1', 1, 1), ('store', 'm2', 1, 2), ('tick', 5), ('store', 'm2', 5, 3), ('store', 'm3', 4, 4), ('store', 'm1', 5, 5)]
   expl.append((dict(strategy='timesorted', max=None, flow=False, lag=2, shutdown_flush=True), r_ops, [('drain',)] * 2, ctx.pick(1, 2), ctx.pick(10, 60), ctx.pick(60, 400)))
+  # strategies that scan the whole cache to choose (max, random): NEW series appear while the scan is under way
+  for st in ('max', 'random'):
+    r_ops = [('store', 'm1', 1, 1), ('store', 'm2', 1, 2), ('store', 'm3', 1, 3), ('store', 'm4', 1, 4)]
+    expl.append((dict(strategy=st, max=None, flow=False, lag=0), r_ops, [('drain',)] * 2, 2, ctx.pick(10, 60), ctx.pick(500, 3000)))
   # scale: hundreds of datapoints per series (the size-ordered strategies must still pick the largest)
   for st in ('bucketmax', 'max'):
     sizes = [ctx.pick(300, 700), ctx.pick(270, 400), 5]
